@@ -1187,6 +1187,8 @@ class C03(C02):
     impl = "harness.c03:impl"
     lax_mode = True
     decl_share = 0.0
+    ptype_share = 0.0
+    multi_share = 0.0
     validator_names = LAX_NAMES + ["ge", "le", "length", "unique_items"]
     rule = ("(a) every lax validator on (value, bound) pairs at and around the bounds, applied twice and followed by its strict form; "
             "(b) declared types with 1-2 Lax(...) constraints (plus strict ones) applied to values of the source type and re-parsed; "
